@@ -191,12 +191,13 @@ structure RemRelPost (w : World) (fl : List Nat) (e : Ent) (ids : List Comp) (w'
     components that stay keep values and targets, no other entity changes. -/
 theorem opRemove_rel_spec (run : ProbeRunner) (p : Path) {w : World} {fl : List Nat} (h : TInv w fl)
     (hl : w.isLocked = false) (hno : ∀ (evt : Nat), w.obs.hasObservers evt = false) {e : Ent}
-    (h2 : 2 ≤ e.id) (hnf : e.id ∉ fl) (ha : w.alive e = true) {ids : List Comp}
+    (h2 : 2 ≤ e.id) (hnf : e.id ∉ fl) (ha : w.alive e = true)
+    (hsl : e.id < w.pool.ents.length) {ids : List Comp}
     (hne : ids ≠ []) (hnd : ids.Nodup)
     (hpres : ∀ (c : Comp), c ∈ ids → (w.maskOf e).get c = true)
     (hfew : w.tables.length < maxU32) (hrows : w.entities.length + 1 < 2 ^ 32) :
     ∃ (w' : World), opRemove run p e ids w = .ok () w' ∧ RemRelPost w fl e ids w' := by
-  obtain ⟨oldT, row, he, htm, _⟩ := h.link.live_entry h2 hnf ha
+  obtain ⟨oldT, row, he, htm, _⟩ := h.link.live_entry h2 hnf ha hsl
   have hix := index_of_get he
   have hI := h.link.idx
   obtain ⟨hT, hrow, hid⟩ := hI.indexed he htm
